@@ -894,6 +894,20 @@ func ruleViewBuild(c *Ctx) {
 			var preVI *viewInfo
 			for i, a := range call.Args {
 				key := fname + ".FromFields[" + postNames[i] + "]"
+				// name contradiction: a variable that spells the name of ANOTHER field of this container is passed here
+				{
+					e := ast.Unparen(a)
+					if ue, ok := e.(*ast.UnaryExpr); ok {
+						e = ast.Unparen(ue.X)
+					}
+					if id, ok := e.(*ast.Ident); ok && !strings.EqualFold(id.Name, postNames[i]) {
+						for j, pn := range postNames {
+							if j != i && strings.EqualFold(id.Name, pn) {
+								c.bad(key+"#name", a.Pos(), "%s passes the variable %s at position %d (field %s) of %s although field %d is named %s: two same-typed fields are crossed", fname, id.Name, i, desc.Names[i], desc.Src, j, desc.Names[j])
+							}
+						}
+					}
+				}
 				// origin of the argument along value-carrying steps only (conversion, &, *, type assertion,
 				// x.View()/x.Copy()-style receiver calls, single-definition locals); sizes and other call
 				// arguments (make(T, valCount)) are not followed.
@@ -1176,14 +1190,24 @@ func ruleLitCopy(c *Ctx) {
 						same++
 					}
 				}
-				if same < 3 {
-					continue
-				}
 				has := func(name string) bool {
 					obj, _, _ := types.LookupFieldOrMethod(srcType[o], true, pk.Types, name)
 					_, isVar := obj.(*types.Var)
 					return isVar
 				}
+				// a literal is a field-wise copy of o when at least three of its keys take a field of o whose own
+				// name exists on o as well (same-named or crossed: a crossed PAIR lowers the same-named count by two)
+				related := 0
+				for _, e := range ents {
+					if e.key == e.src || has(e.key) {
+						related++
+					}
+				}
+				if same < 3 && !(same >= 2 && related >= 4) {
+					continue
+				}
+				_ = has
+
 				key := pkgShort(pk.Types) + "." + funcName(fd) + ":" + types.ExprString(cl.Type) + "<-" + o.Name()
 				bad := false
 				for _, e := range ents {
